@@ -533,8 +533,9 @@ def run_shard(ctx):
   cap = 60 if quick else 600
   n_random = 6 if quick else 60
   items = []
-  for bi, backend in enumerate(['ram', 'sqlmem']):
-    for ci, (pname, names) in enumerate(combos):
+  # backends interleaved: a run cut short by its time budget loses combos of both evenly
+  for ci, (pname, names) in enumerate(combos):
+    for bi, backend in enumerate(['ram', 'sqlmem'] if ci % 2 == 0 else ['sqlmem', 'ram']):
       items.append((backend, pname, names))
   # stress first (bounded), then the matrix in a seed-dependent rotation so that a
   # time-boxed run covers different combos on different seeds
